@@ -701,7 +701,7 @@ func (rn *runner) doEnter(h uint64, r uint32) {
 	}
 	rn.stats["sm_enter"]++
 	rn.barrier()
-	fmt.Fprintf(rn.out, "STEP (MEnter %d %d) @@ 0 @@ %s\n", h, r, rn.observe())
+	rn.printStep("STEP (MEnter %d %d) @@ 0 @@ %s\n", h, r, rn.observe())
 }
 
 func (rn *runner) doSMRead() {
@@ -719,7 +719,7 @@ func (rn *runner) doSMRead() {
 		rn.stats["sm_read_empty"]++
 	}
 	rn.barrier()
-	fmt.Fprintf(rn.out, "STEP MSMRead @@ 0 @@ %s\n", rn.observe())
+	rn.printStep("STEP MSMRead @@ 0 @@ %s\n", rn.observe())
 }
 
 func (rn *runner) doGRead() {
@@ -743,7 +743,7 @@ func (rn *runner) doGRead() {
 		rn.stats["gossip_read_empty"]++
 	}
 	rn.barrier()
-	fmt.Fprintf(rn.out, "STEP MGRead @@ 0 @@ %s\n", rn.observe())
+	rn.printStep("STEP MGRead @@ 0 @@ %s\n", rn.observe())
 }
 
 // a replayed header (mirror catch-up): header for the voting height plus a commit proof
@@ -942,6 +942,16 @@ func (rn *runner) coqHdr(hd tmconsensus.Header, hashOK bool, cur, next valset) s
 		coqBytes(hd.PrevBlockHash), rn.w.coqCProof(hd.PrevCommitProof), cur.coq(), next.coq())
 }
 
+// printStep prints one step; in concurrent mode the operation is not modelled (the batches have no sequential
+// counterpart), so only the observation is kept.
+func (rn *runner) printStep(format string, args ...interface{}) {
+	if concurrentMode {
+		fmt.Fprintf(rn.out, "CSTEP @@ %s\n", args[len(args)-1])
+		return
+	}
+	fmt.Fprintf(rn.out, format, args...)
+}
+
 func (rn *runner) emit(op string, res uint64) {
 	if rn.failed {
 		return
@@ -953,7 +963,7 @@ func (rn *runner) emit(op string, res uint64) {
 			return
 		}
 	}
-	fmt.Fprintf(rn.out, "STEP %s @@ %d @@ %s\n", op, res, rn.observe())
+	rn.printStep("STEP %s @@ %d @@ %s\n", op, res, rn.observe())
 	if rn.redo != nil && rn.pendingCrash < 0 {
 		f := rn.redo
 		rn.redo = nil
@@ -1187,7 +1197,7 @@ func (rn *runner) step() {
 		case x < 4: // clean restart
 			rn.stats["restart_clean"]++
 			if rn.restartMirror("XRestart") {
-				fmt.Fprintf(rn.out, "STEP XRestart @@ 0 @@ %s\n", rn.observe())
+				rn.printStep("STEP XRestart @@ 0 @@ %s\n", rn.observe())
 			}
 			return
 		case x < 22: // the next operation is cut short after k store writes
@@ -1358,6 +1368,119 @@ func (rn *runner) step() {
 		rn.doVotes(kind, h, r, string(vs.vs.PubKeyHash), []voteEntry{{t, rn.mkSigsNoKid(vs, kind, h, r, t, rn.randSubset(nn, 1), 10)}})
 	default: // odd proposals
 		rn.proposal(&v, &c, H, R, 1+w.r.below(12))
+	}
+}
+
+// concurrentRound delivers a batch of overlapping messages from concurrent callers, some of which give up early
+// (context cancelled), then checks that the kernel still answers and lets both consumers read until nothing is offered.
+func (rn *runner) concurrentRound() {
+	w := rn.w
+	v, c := rn.views()
+	H, R := v.Height, v.Round
+	cur := rn.valsFor(H)
+	n := len(cur.keys)
+	pkh := string(cur.vs.PubKeyHash)
+	if w.r.chance(1, 2) {
+		rn.proposal(&v, &c, H, R, 0)
+		v, c = rn.views()
+		if v.Height != H || v.Round != R {
+			return
+		}
+	}
+	if rn.consumers && (!rn.entered || H > rn.lastEnterH || (H == rn.lastEnterH && R > rn.lastEnterR)) && w.r.chance(1, 2) {
+		rn.entered, rn.lastEnterH, rn.lastEnterR = true, H, R
+		rn.doEnter(H, R)
+	}
+	targets := []string{""}
+	for _, p := range rn.knownPHs[hr{H, R}] {
+		targets = append(targets, string(p.Header.Hash))
+	}
+	type call struct {
+		kind    int
+		r       uint32
+		proofs  map[string][]gcrypto.SparseSignature
+		giveUp  time.Duration
+		entries int
+	}
+	k := 3 + w.r.below(4)
+	calls := make([]call, k)
+	for i := range calls {
+		cl := call{kind: kindPrecommit, r: R, proofs: map[string][]gcrypto.SparseSignature{}}
+		if w.r.chance(1, 3) {
+			cl.kind = kindPrevote
+		}
+		if w.r.chance(1, 6) {
+			cl.r = R + 1 + uint32(w.r.below(3)) // next round or a future one
+		}
+		ne := 1 + w.r.below(2)
+		for e := 0; e < ne; e++ {
+			t := targets[w.r.below(len(targets))]
+			if w.r.chance(1, 8) {
+				t = "other-block"
+			}
+			idxs := rn.randSubset(n, 1)
+			if len(idxs) > 2 && w.r.chance(1, 2) {
+				idxs = idxs[:2] // small overlapping subsets keep the round open for the next batch
+			}
+			cl.proofs[t] = append(cl.proofs[t], rn.mkSigs(cur, cl.kind, H, cl.r, t, idxs, 3)...)
+		}
+		if w.r.chance(1, 3) {
+			cl.giveUp = time.Duration(20+w.r.below(400)) * time.Microsecond
+		}
+		calls[i] = cl
+		rn.touched[hr{H, cl.r}] = true
+	}
+	start := make(chan struct{})
+	var wg sync.WaitGroup
+	for i := range calls {
+		cl := calls[i]
+		wg.Add(1)
+		go func() {
+			defer wg.Done()
+			<-start
+			ctx, cancel := context.WithTimeout(w.ctx, 3*time.Second)
+			if cl.giveUp > 0 {
+				ctx, cancel = context.WithTimeout(w.ctx, cl.giveUp)
+			}
+			defer cancel()
+			if cl.kind == kindPrevote {
+				rn.m.HandlePrevoteProofs(ctx, tmconsensus.PrevoteSparseProof{Height: H, Round: cl.r, PubKeyHash: pkh, Proofs: cl.proofs})
+			} else {
+				rn.m.HandlePrecommitProofs(ctx, tmconsensus.PrecommitSparseProof{Height: H, Round: cl.r, PubKeyHash: pkh, Proofs: cl.proofs})
+			}
+		}()
+	}
+	close(start)
+	done := make(chan struct{})
+	go func() { wg.Wait(); close(done) }()
+	select {
+	case <-done:
+	case <-time.After(8 * time.Second):
+		fmt.Fprintf(rn.out, "HUNG callers did not return within 8s after a concurrent batch of %d messages at %d/%d\n", k, H, R)
+		rn.failed = true
+		return
+	}
+	rn.stats["concurrent_batches"]++
+	rn.stats["concurrent_calls"] += k
+	// the kernel must still answer
+	pctx, pcancel := context.WithTimeout(w.ctx, 3*time.Second)
+	var pv tmconsensus.VersionedRoundView
+	err := rn.m.VotingView(pctx, &pv)
+	pcancel()
+	if err != nil {
+		fmt.Fprintf(rn.out, "HUNG the kernel does not answer a view request after a concurrent batch of %d messages at %d/%d: %v\n", k, H, R, err)
+		rn.failed = true
+		return
+	}
+	rn.io = TL([]string{TN(0)})
+	rn.printStep("STEP %s @@ %d @@ %s\n", "batch", 0, rn.observe())
+	if rn.consumers {
+		for i := 0; i < 3; i++ {
+			rn.doGRead()
+			if rn.entered {
+				rn.doSMRead()
+			}
+		}
 	}
 }
 
@@ -1699,7 +1822,7 @@ func (rn *runner) proposal(v, c *tmconsensus.VersionedRoundView, H uint64, R uin
 	}
 }
 
-var crashMode, consumerMode, replayMode, hazardMode bool
+var crashMode, consumerMode, replayMode, hazardMode, concurrentMode bool
 
 func runCase(idx int, seed uint64, nOps int, out io.Writer, stats map[string]int) {
 	ctx, cancel := context.WithCancel(context.Background())
@@ -1735,8 +1858,15 @@ func runCase(idx int, seed uint64, nOps int, out io.Writer, stats map[string]int
 	internDefs = nil
 	internCase = idx
 	fmt.Fprintf(out, "CASE %d %d\nINIT %d %s\n", idx, seed, initH, genesis.coq())
-	for i := 0; i < nOps; i++ {
-		rn.step()
+	if concurrentMode {
+		fmt.Fprintf(out, "CONC\n")
+		for i := 0; i < nOps && !rn.failed; i++ {
+			rn.concurrentRound()
+		}
+	} else {
+		for i := 0; i < nOps; i++ {
+			rn.step()
+		}
 	}
 	if !rn.failed && rn.consumers {
 		// quiescence: both consumers read until nothing is offered any more
@@ -1769,6 +1899,7 @@ func main() {
 	flag.BoolVar(&consumerMode, "consumers", false, "act as state machine and gossip reader")
 	flag.BoolVar(&hazardMode, "hazards", false, "also generate the inputs recorded as known findings (they kill the kernel)")
 	flag.BoolVar(&replayMode, "replay", false, "feed replayed headers (mirror catch-up)")
+	flag.BoolVar(&concurrentMode, "concurrent", false, "batches of overlapping messages from concurrent callers (observations only)")
 	flag.Parse()
 	out := os.Stdout
 	stats := map[string]int{}
